@@ -359,6 +359,42 @@ impl ConnDriver {
         text
     }
 
+    /// TWO messages are queued in the socket when `try_read` is called (each with its own descriptors, as two `sendmsg`
+    /// calls of the peer leave them): one `try_read` takes ONE message — the second stays for the next call. Emitted as
+    /// two ordinary `conn recv` ops. Returns the two result texts (the second is "TAKEN-EARLY" if the first call
+    /// consumed both messages).
+    pub fn recv_two_queued(&mut self, rec: &mut Rec, b1: &[u8], nf1: usize, b2: &[u8], nf2: usize) -> (String, String) {
+        let (t1, f1): (Vec<usize>, Vec<RawFd>) = (0..nf1).map(|_| self.tokens.fresh()).unzip();
+        let (t2, f2): (Vec<usize>, Vec<RawFd>) = (0..nf2).map(|_| self.tokens.fresh()).unzip();
+        let ts = |t: &Vec<usize>| if t.is_empty() { "-".to_string() } else { t.iter().map(|x| x.to_string()).collect::<Vec<_>>().join(",") };
+        {
+            let mut s = self.stream.0.borrow_mut();
+            s.reads.clear();
+            s.reads.push_back(RAct::Data(b2.to_vec(), f2.clone()));
+        }
+        let op1 = format!("conn recv {} {}", hx(b1), ts(&t1));
+        let (r1, _) = self.read_once(rec, RAct::Data(b1.to_vec(), f1), op1);
+        let intact = {
+            let mut s = self.stream.0.borrow_mut();
+            let ok = matches!(s.reads.front(), Some(RAct::Data(b, _)) if b == b2) && s.reads.len() == 1;
+            s.reads.clear();
+            ok
+        };
+        self.rest = vec![];
+        let op2 = format!("conn recv {} {}", hx(b2), ts(&t2));
+        if intact {
+            let (r2, _) = self.read_once(rec, RAct::Data(b2.to_vec(), f2), op2);
+            self.stream.0.borrow_mut().reads.clear();
+            (r1, r2)
+        } else {
+            let mut l = self.log.clone();
+            l.push(op2.clone());
+            rec.oracle_fail("C12", "two messages were queued in the socket: one try_read took (part of) the second one as well — its descriptors now travel with the wrong bytes", &l);
+            self.emit(rec, op2, "TAKEN-EARLY".into());
+            (r1, "TAKEN-EARLY".into())
+        }
+    }
+
     /// One more `try_read` on the rest of the last offer: op `conn more`.
     pub fn recv_more(&mut self, rec: &mut Rec) -> String {
         let rest = self.rest.clone();
